@@ -2,9 +2,13 @@ import Driver.Common
 import AslModel.Stream
 /-! Model driver for C16 (endian-aware binary streams).
 
-A case is one stream object: `new <sb|file|sock> <def|big|little|native>`, a write phase
-(`endian`, `w`, `wa`, `wb`, `ws`, `wz` — each prints the bytes it appended), then `reader <e>` and a read
-phase (`rendian`, `r`, `rb`, `skip`, `rs`) over everything written. -/
+A case is one stream object: `new <sb|file|sock> <def|big|little|native>`, a write phase — each write prints the
+bytes it appended — then `reader <e>` and a read phase over everything written.
+Write ops: `endian`, `w` (scalar), `wa` (Array<T>), `av`/`wv` (one Array object written repeatedly; prints the caller's
+array too), `wb`/`ws`/`wz`/`wc`/`wca` (ByteArray, String, const char*, char*, char[N]), `wcarr` (T[N], StreamBuffer),
+`was` (Array<String>), `wd`/`wdsb` (Stack/Queue/StreamBuffer objects, File/Socket), `wself`/`wselfpart` (a StreamBuffer's
+own bytes).  Read ops: `rendian`, `r`, `ra`/`rd` (>> Array<T> / Stack / Queue, File/Socket), `rb`, `skip`, `rs`
+(>> String), `rsame` (probe of a known finding), `state` (the socket's own view: error, available). -/
 open Driver AslModel.Stream Gen.Stream
 
 namespace Driver.C16
@@ -156,10 +160,10 @@ def step (st : St) (ts : List String) : St × String :=
     match unhex h with
     | some bs => doWrite st k (.cstr bs)
     | none => (st, "bad-op")
-  | ["wca", h] =>         -- char[N], N = length + 1 (StreamBuffer only: it does not compile for File/Socket before 7c56539)
+  | ["wca", h] =>         -- char[N], N = length + 1: a C string for all three classes (since 7c56539)
     if st.reading then (st, "closed") else
     match unhex h with
-    | some bs => if bs.length > 15 then (st, "bad-op") else if k != .sb then (st, "na") else doWrite st k (.cstr bs)
+    | some bs => if bs.length > 15 then (st, "bad-op") else doWrite st k (.cstr bs)
     | none => (st, "bad-op")
   | ["wcarr", tys, h] =>  -- T[N], 1 <= N <= 8 (StreamBuffer only)
     if st.reading then (st, "closed") else
